@@ -243,6 +243,53 @@ func permutationsRaw(n int) [][]int {
 	return out
 }
 
+// reorderings returns the statements obtained from s by permuting the operands of exactly one
+// and/or node, anywhere in the tree.
+func reorderings(s stmt) []stmt {
+	var out []stmt
+	switch s.Op {
+	case "and", "or":
+		if len(s.SS) >= 2 && len(s.SS) <= 3 {
+			for _, perm := range permutations(len(s.SS))[1:] {
+				v := stmt{Op: s.Op}
+				for _, k := range perm {
+					v.SS = append(v.SS, s.SS[k])
+				}
+				out = append(out, v)
+			}
+		}
+		for i, c := range s.SS {
+			for _, cv := range reorderings(c) {
+				v := stmt{Op: s.Op, SS: append([]stmt{}, s.SS...)}
+				v.SS[i] = cv
+				out = append(out, v)
+			}
+		}
+	case "not", "all", "any":
+		for _, cv := range reorderings(*s.S) {
+			c := cv
+			out = append(out, stmt{Op: s.Op, Sel: s.Sel, S: &c})
+		}
+	}
+	return out
+}
+
+// reversed returns s with the operand list of every and/or node reversed.
+func reversed(s stmt) stmt {
+	switch s.Op {
+	case "and", "or":
+		v := stmt{Op: s.Op, SS: []stmt{}}
+		for i := len(s.SS) - 1; i >= 0; i-- {
+			v.SS = append(v.SS, reversed(s.SS[i]))
+		}
+		return v
+	case "not", "all", "any":
+		c := reversed(*s.S)
+		return stmt{Op: s.Op, Sel: s.Sel, S: &c}
+	}
+	return s
+}
+
 type polCase struct {
 	DataTable [][]any  `json:"datatable"`
 	St        *stmt    `json:"st"`
@@ -339,17 +386,13 @@ func init() {
 					}
 				}
 			}
-			// L2 / L3 on real results: operand order and operand addition
-			if (st.Op == "and" || st.Op == "or") && len(st.SS) >= 2 {
+			// L2 / L3 on real results: operand order (at any depth) and operand addition
+			if vs := reorderings(st); len(vs) > 0 {
 				base := make([]mres, len(data))
 				for di, d := range data {
 					base[di] = matchReal(pi, d)
 				}
-				for _, perm := range permutations(len(st.SS))[1:] {
-					st2 := stmt{Op: st.Op}
-					for _, k := range perm {
-						st2.SS = append(st2.SS, st.SS[k])
-					}
+				for _, st2 := range vs {
 					p2, err := policyViaIPLD(st2)
 					if err != nil {
 						return err
@@ -576,7 +619,8 @@ func init() {
 		rng := rand.New(rand.NewSource(seed))
 		sels := []string{".", ".a", ".a?", ".b", ".b?", ".l", ".l?", ".l[0]", ".l[-1]", ".l[]", ".m[]", ".m.x", ".m.x?", ".l[0:1]", ".s", ".s[0:1]"}
 		lits := [][]any{{"int", 0.0}, {"int", 1.0}, {"int", 2.0}, {"float", 2.0, "fin"}, {"float", 3.0, "fin"}, {"string", []any{97.0}}, {"string", []any{97.0, 98.0}},
-			{"bool", true}, {"null"}, {"list", []any{[]any{"int", 1.0}}}, {"float", 0.0, "nan"}, {"float", 0.0, "pinf"}}
+			{"bool", true}, {"null"}, {"list", []any{[]any{"int", 1.0}}}, {"float", 0.0, "nan"}, {"float", 0.0, "pinf"},
+			{"float", 2000000000.0, "fin"}, {"float", -2000000000.0, "fin"}, {"int", 2000000000.0}, {"int", -2000000000.0}}
 		pats := []string{"a*", "*b", "\\*", "*", "a"}
 		var genStmt func(d int) stmt
 		genStmt = func(d int) stmt {
@@ -643,7 +687,13 @@ func init() {
 				return fmt.Errorf("driver built a statement the real parser rejects: %v", err)
 			}
 			r := matchReal(p, d)
-			emit(map[string]any{"ev": "Match", "st": st.term(), "data": dj, "match": r.match, "partial": r.partial, "panic": r.panicked != ""})
+			pr, err := policyViaIPLD(reversed(st))
+			if err != nil {
+				return err
+			}
+			rr := matchReal(pr, d)
+			emit(map[string]any{"ev": "Match", "st": st.term(), "data": dj, "match": r.match, "partial": r.partial, "panic": r.panicked != "" || rr.panicked != "",
+				"rmatch": rr.match, "rpartial": rr.partial})
 		}
 		return nil
 	}
